@@ -16,3 +16,5 @@ def run(prog, rep):
     r_view.run_ndsize(prog, rep)
     r_view.run_param_subscripts(prog, rep)
     r_flow.run_live(prog, rep, which=('slice',), floor=2)
+    from ..rules import r_view as _rv
+    _rv.run_indata(prog, rep)
